@@ -118,6 +118,7 @@ func FocusFor(prop string, tier string) Focus {
 		mul(2, KSetWithdr, KRespond, KCall)
 		f.PrefixProv = 50
 		f.PreludePct = 75
+		f.ModSvcPct = 30
 	case "C15":
 		mul(3, KDefine, KBind)
 		mul(2, KUpdateBind)
